@@ -509,7 +509,7 @@ func checkMain(args []string) int {
 		harnessIDs = append(harnessIDs, h.ID)
 	}
 	ev := Evidence{PropertyID: id, Tier: *tier, Seed: seed, Level: "model_checking", WallS: time.Since(t0).Seconds(), Violations: nviol,
-		Assumptions: append(append([]string{}, cfg.Assumptions...), "SMT solvers z3 4.8.12 (primary), cvc5/z3-new (fallback) are sound", "the symbolic interpreter (fork of go/ssa/interp) agrees with the Go compiler; checked on the sampled traces replayed natively"),
+		Assumptions: append(append([]string{}, cfg.Assumptions...), "SMT solvers are sound: z3 5.1.0 (z3-new, primary), fallback portfolio cvc5 1.0 --solve-bv-as-int=sum, z3 4.8.12, cvc5", "the symbolic interpreter (fork of go/ssa/interp) agrees with the Go compiler; checked on the sampled traces replayed natively"),
 		Coverage: map[string]interface{}{
 			"states":                        totalPaths,
 			"transitions":                   totalDec,
